@@ -141,15 +141,30 @@ def md_value_lines(name, cls, v):
     raise ValueError(cls)
 
 
-def md_render(opts):
-    """opts: list of (name, cls, value) -> metadata block text"""
+def md_render(opts, alt=False):
+    """opts: list of (name, cls, value) -> metadata block text.  `alt`: the other spellings the Markdown meta-data syntax allows
+    for the same content - `---` fences, keys in capitals or indented by up to three blanks, padded values, a multi-valued option
+    as one line per value that repeats the key, deeper continuation lines, several blanks / a tab between the fields of a file type."""
     lines = []
-    for name, cls, v in opts:
+    for i, (name, cls, v) in enumerate(opts):
         vl = v if isinstance(v, list) and cls == "raw" else md_value_lines(name, cls, v)
-        lines.append(f"{name}: {vl[0]}")
-        for extra in vl[1:]:
-            lines.append(f"    {extra}")
-    return "\n".join(lines)
+        if not alt:
+            lines.append(f"{name}: {vl[0]}")
+            for extra in vl[1:]:
+                lines.append(f"    {extra}")
+            continue
+        base = cls.replace("opt_", "")
+        if base == "dict_filetype":
+            vl = [(" \t " if k % 2 else "   ").join(x.split(" ")) for k, x in enumerate(vl)]
+        key = [name.upper(), "  " + name, name.capitalize(), name][i % 4]
+        multi = base in ("list_str", "list_path", "dict_str", "dict_filetype")
+        if multi and len(vl) > 1 and i % 2 == 0:
+            lines += [f"{key}:   {x}  " for x in vl]
+        else:
+            lines.append(f"{key}:\t{vl[0]} ")
+            for extra in vl[1:]:
+                lines.append(f"      \t{extra}  ")
+    return "---\n" + "\n".join(lines) + "\n---" if alt else "\n".join(lines)
 
 
 def toml_literal(name, cls, v):
@@ -302,14 +317,14 @@ def make_dirs(root, opts, unknown=None, raw_bad=None):
     """Create three sibling project directories carrying the same options in the three formats.
     Returns {format: (projdir, cli)}"""
     res = {}
-    for fmt in ("md", "toml", "config"):
+    for fmt in ("md", "md_alt", "toml", "config"):
         d = os.path.join(root, fmt, "proj")
         os.makedirs(d, exist_ok=True)
         os.makedirs(os.path.join(root, fmt, "elsewhere", "deep"), exist_ok=True)
         allopts = BASE_OPTS + [o for o in opts if o[0] != "preprocess"] if not any(o[0] == "preprocess" for o in opts) else list(opts)
         cli = []
-        if fmt == "md":
-            text = md_render(allopts) + "\n\nFront page text.\n"
+        if fmt in ("md", "md_alt"):
+            text = md_render(allopts, alt=fmt == "md_alt") + "\n\nFront page text.\n"
         elif fmt == "toml":
             text = "Front page text.\n"
             with open(os.path.join(d, "fpm.toml"), "w") as f:
@@ -379,7 +394,7 @@ def case_equivalence(item):
                              "option": opts[0][0] if len(opts) == 1 else "multi", "type": opts[0][1] if len(opts) == 1 else "multi"})
         oks = {k: strip(k[0], r["settings"]) for k, r in results.items() if r["outcome"] == "ok"}
         # (a) same format, different cwd
-        for fmt in ("md", "toml", "config"):
+        for fmt in ("md", "md_alt", "toml", "config"):
             ks = [k for k in oks if k[0] == fmt]
             for k in ks[1:]:
                 if oks[k] != oks[ks[0]]:
@@ -387,7 +402,7 @@ def case_equivalence(item):
                     viol.append({"kind": "depends_on_cwd", "format": fmt, "fields": diff, "option": opts[0][0] if len(opts) == 1 else "multi"})
         # (b) across formats
         if ("md", 0) in oks:
-            for fmt in ("toml", "config"):
+            for fmt in ("md_alt", "toml", "config"):
                 if (fmt, 0) in oks and oks[(fmt, 0)] != oks[("md", 0)]:
                     a, b = oks[("md", 0)], oks[(fmt, 0)]
                     diff = sorted(f for f in a if a[f] != b.get(f))
@@ -398,7 +413,7 @@ def case_equivalence(item):
                                  "diff_only_in_set_fields": set(diff) <= set_fields,
                                  "md": {f: a[f] for f in diff}, fmt: {f: b.get(f) for f in diff}})
         # (c) reference semantics for each set option, on the md result and toml result
-        for fmt in ("md", "toml", "config"):
+        for fmt in ("md", "md_alt", "toml", "config"):
             if (fmt, 0) not in oks:
                 continue
             got = oks[(fmt, 0)]
